@@ -531,14 +531,14 @@ void ProtoRun::do_op(const Op &op) {
         }
         obs.hs_done = w.cli->is_complete() && w.srv->is_complete();
     } else if (op.k == "burst") {
-        // op.b application records of one byte each in one direction, delivered as they go (long-lived connection: sequence numbers far
+        // op.b application records of three bytes each in one direction, delivered as they go (long-lived connection: sequence numbers far
         // beyond 2^16 under one traffic key)
         MxEndpoint &e = w.ep(dir);
         if (e.alive() && e.is_complete()) {
-            Bytes one(1, 0x42);
+            Bytes one(3, 0x42);      // the record number itself: no two records of the burst carry the same plaintext
             for (int64_t i = 0; i < op.b && e.alive() && !obs.death[0].dead && !obs.death[1].dead; i++) {
-                one[0] = (unsigned char) i;
-                if (e.app_send(one.data(), 1, false) < 0) { break; }
+                one[0] = (unsigned char) i; one[1] = (unsigned char) (i >> 8); one[2] = (unsigned char) (i >> 16);
+                if (e.app_send(one.data(), one.size(), false) < 0) { break; }
                 obs.sent[dir].push_back(one);
                 if ((i & 63) == 63 || i + 1 == op.b) { w.collect(DIR_C2S); w.collect(DIR_S2C); deliver_all(); }
             }
